@@ -329,7 +329,9 @@ package scanner
 // The @exact-... clauses: exactness of lexeme ends (C12, second sentence, per state): a schema or enum body ends at the byte BEFORE the byte that
 // follows it (its length comes from the schema library); an unquoted parameter ends before its separator, a quoted one at
 // its closing quote; a one-line annotation ends before '#'; a block annotation before its "*/". A parameter / annotation
-// begins at the byte its start state is run on. (gFree: one past the end of the last closed lexeme.)
+// begins at the byte its start state is run on. (gFree: one past the end of the last closed lexeme.) A "(" in front of a
+// body and a ")" where a directive may start are reported as context lexemes (C11: ")" closes the innermost explicit
+// context - which presupposes that every "(" opened one).
 //@ functype stepFunc(s, c)
 //@   property C01,C12,C13,C08
 //@   requires s != nil && s.step == self && fileOK(s) && paramsOK(s)
@@ -362,6 +364,10 @@ package scanner
 //@   ensures[C13,@kw-start-complete] imp(startsDirective(self) && (isKwPrefix(char(c)) || ('1' <= c && c <= '5')), result == nil && s.gOpen == 1)
 //@   ensures[C13,@separator] imp(self == stateParameterOrAnnotation,
 //@       iff(result == nil, isSeparator(c)) && imp(result != nil, result.Index == old(s.curIndex)))
+//@   ensures[C12,C11,@paren-is-reported] imp((self == stateBodyBody || self == stateEnumBody || self == stateHeaderBody || self == stateParamsBody || self == statePathBody
+//@       || self == stateQueryBodyOrKeyword || self == stateRequestBody || self == stateResponseBody || self == stateResultBody || self == stateTypeBody)
+//@       && c == '(' && result == nil, s.gPhase == 4)
+//@   ensures[C12,C11,@closing-paren-is-reported] imp(self == stateExpectKeyword && c == ')' && result == nil, s.gPhase == 0)
 //@   ensures[C12,@exact-body-end] imp((self == stateSchemaClosed || self == stateEnumBodyClose) && result == nil, s.gOpen == 0 && s.gFree == old(s.curIndex))
 //@   ensures[C12,@exact-separator-emits-nothing] imp(self == stateParameterOrAnnotation, s.gFree == old(s.gFree) && s.gOpen == old(s.gOpen))
 //@   ensures[C12,@exact-parameter-end] imp(self == stateParameterWoQuoted && in(c, ' ', '\t', '\n', '\r', 0, '#') && result == nil, s.gFree == old(s.curIndex))
